@@ -155,6 +155,19 @@ func c14R1(r *Report) {
 			})
 			ok = !between
 		})
+		if !ok {
+			// no defer: the writer is closed explicitly on every way from its creation to a return (a panic in between
+			// ends the process — nothing in the module recovers — so no reservation outlives it)
+			isClose := func(i ssa.Instruction) bool {
+				cc, isC := i.(*ssa.Call)
+				return isC && cc.Call.StaticCallee() == wc && len(cc.Call.Args) > 0 && cc.Call.Args[0] == ssa.Value(c)
+			}
+			isRet0 := func(i ssa.Instruction) bool { _, isR := i.(*ssa.Return); return isR }
+			miss, reached := pathsMissing(c, -1, isRet0, nil, []edgeReq{{Name: "closed", Instr: isClose}})
+			if len(miss) == 0 && reached > 0 {
+				ok = true
+			}
+		}
 		r.Check(ok, "R1", key, cs.Pos(), "the writer is closed by a defer registered immediately after it is created", "the web-seed writer is not closed by a `defer w.Close()` registered immediately after NewWriter: an exit (or panic) in between leaves its blocks reserved forever")
 	}
 	r.Sentinel("R1", len(calls), 2)
@@ -671,6 +684,20 @@ func c14R7(r *Report) {
 			for _, ci2 := range callsIn(h) {
 				if c2, ok := ci2.(*ssa.Call); ok && isGet(c2) {
 					r.Fn(h)
+					get = c
+				}
+			}
+		}
+	}
+	if get == nil {
+		// the whole loop over the file chunks moved into a private helper of webseedGR
+		for _, f := range p.SrcFuncs() {
+			if get != nil || relPkg(f) != "tor" || f == gr || !p.inUnitOf(enclosingNamed(f), gr) {
+				continue
+			}
+			for _, ci := range callsIn(f) {
+				if c, ok := ci.(*ssa.Call); ok && isGet(c) {
+					r.Fn(f)
 					get = c
 				}
 			}
